@@ -1994,6 +1994,9 @@ where
                 .write_sequence(self.into_tokens())
                 .context(PrintDataSetSnafu)?;
 
+            // the adapter buffers data: flush it so that write errors are reported
+            dset_writer.flush().context(PrintDataSetSnafu)?;
+
             Ok(())
         } else {
             // prepare data set writer
